@@ -136,6 +136,9 @@ func (dm *DMap) putOnReplicaFragment(e *env) error {
 	}
 
 	e.fragment = f
+	if verifhook.Enabled {
+		verifhook.Point("put.fragmentLoaded", dm.s.rt.This().String(), e.key)
+	}
 	f.Lock()
 	defer f.Unlock()
 
@@ -342,6 +345,9 @@ func (dm *DMap) putOnCluster(e *env) error {
 	}
 
 	e.fragment = f
+	if verifhook.Enabled {
+		verifhook.Point("put.fragmentLoaded", dm.s.rt.This().String(), e.key)
+	}
 	f.Lock()
 	defer f.Unlock()
 
